@@ -1,5 +1,6 @@
 pub mod c01;
 pub mod c05race;
+pub mod c10;
 pub mod common;
 pub mod hist;
 pub mod histchecks;
@@ -13,6 +14,7 @@ pub fn by_id(id: &str) -> Option<Box<dyn Check>> {
         "C02" => Some(Box::new(histchecks::HistCheck { prop: "C02" })),
         "C03" => Some(Box::new(histchecks::HistCheck { prop: "C03" })),
         "C05" => Some(Box::new(histchecks::C05)),
+        "C10" => Some(Box::new(c10::C10)),
         "C08" => Some(Box::new(histchecks::HistCheck { prop: "C08" })),
         _ => None,
     }
